@@ -513,3 +513,109 @@ for _p, _oid in (("C05", "M05-5-mmap-meta-lock-exclusive"), ("C10", "M10-8-mmap-
                 ("err_propagates", "open"), ("err_propagates", "excl")]),
       title="MmapDirectory::acquire_lock takes an exclusive flock on both branches (blocking: META_LOCK shared by reader loads and GC; non-blocking: the writer lock) and builds the guard only after the lock call succeeded",
       functions=["<MmapDirectory as Directory>::acquire_lock"], bounds="")
+
+# =============================================================================================
+# more C01: MmapDirectory fsync discipline (M01-5), serializer close, worker hand-over
+# =============================================================================================
+M("C01", "M01-5-mmap-atomic_write", dict(
+    root=r"^directory::mmap_directory::atomic_write$", depth=1, unroll=2, inline=[], auto_inline=False,
+    events={"tmp": {"call": r"tempfile::Builder::<.*>::tempfile_in"},
+            "write": {"call": r"NamedTempFile as std::io::Write>::write_all$"},
+            "flush": {"call": r"NamedTempFile as std::io::Write>::flush$"},
+            "fsync": {"call": r"std::fs::File::sync_(data|all)$"},
+            "persist": {"call": r"tempfile::TempPath::persist|NamedTempFile::persist"},
+            "ret": {"ret": True}},
+    checks=[("precedes_ok", "write", "fsync"), ("precedes_ok", "flush", "fsync"), ("precedes_ok", "fsync", "persist"),
+            ("not_after_fail", "write", "persist"), ("not_after_fail", "fsync", "persist"),
+            ("err_propagates", "tmp"), ("err_propagates", "write"), ("err_propagates", "flush"),
+            ("err_propagates", "fsync"), ("err_propagates", "persist")]),
+  title="MmapDirectory atomic_write: temp file written, flushed and fsynced before it is renamed over the target; every failure returned",
+  functions=["directory::mmap_directory::atomic_write"], bounds="")
+
+M("C01", "M01-5-mmap-terminate", dict(
+    root=r"^directory::mmap_directory::" + I + r"::terminate_ref$", depth=1, unroll=2, inline=[], auto_inline=False,
+    events={"flush": {"call": r"std::fs::File as std::io::Write>::flush$"},
+            "fsync": {"call": r"std::fs::File::sync_(data|all)$"},
+            "ret": {"ret": True}},
+    checks=[("precedes_ok", "flush", "fsync"), ("reach", "fsync"), ("err_propagates", "flush"), ("err_propagates", "fsync")]),
+  title="SafeFileWriter::terminate_ref: flush then fsync of the file data; failures returned",
+  functions=["<SafeFileWriter as TerminatingWrite>::terminate_ref"], bounds="")
+
+M("C01", "M01-5-mmap-sync_directory", dict(
+    root=r"^directory::mmap_directory::" + I + r"::sync_directory$", depth=1, unroll=2, inline=[], auto_inline=False,
+    events={"open": {"call": r"OpenOptions::open"},
+            "fsync": {"call": r"std::fs::File::sync_(data|all)$"},
+            "ret": {"ret": True}},
+    checks=[("precedes_ok", "open", "fsync"), ("reach", "fsync"), ("err_propagates", "open"), ("err_propagates", "fsync")]),
+  title="MmapDirectory::sync_directory opens the directory and fsyncs it; failures returned",
+  functions=["<MmapDirectory as Directory>::sync_directory"], bounds="")
+
+M("C01", "M01-4-serializer-close", dict(
+    root=r"^indexer::segment_serializer::" + I + r"::close$", depth=1, unroll=2, inline=[], auto_inline=False,
+    events={"norms": {"call": r"FieldNormsSerializer::close$"},
+            "fast": {"call": r"TerminatingWrite>::terminate$"},
+            "postings": {"call": r"InvertedIndexSerializer::close$"},
+            "store": {"call": r"StoreWriter::close$"},
+            "ret": {"ret": True}},
+    checks=[("reach", "norms"), ("reach", "fast"), ("reach", "postings"), ("reach", "store"),
+            ("err_propagates", "norms"), ("err_propagates", "fast"), ("err_propagates", "postings"), ("err_propagates", "store"),
+            ("precedes_ok", "postings", "store")]),
+  title="SegmentSerializer::close closes / terminates the field-norm, fast-field, postings and store writers; any failure is returned (Ok only after all four)",
+  functions=["SegmentSerializer::close"], bounds="")
+
+M("C01", "M01-4-worker-handover", dict(
+    root=r"^indexer::index_writer::index_documents$", depth=1, unroll=2, inline=[], auto_inline=False,
+    events={"finalize": {"call": r"SegmentWriter::finalize$"},
+            "add_segment": {"call": r"SegmentUpdater::schedule_add_segment$"},
+            "ret": {"ret": True}},
+    checks=[("precedes_ok", "finalize", "add_segment"), ("not_after_fail", "finalize", "add_segment")]),
+  title="a freshly written segment is handed to the segment updater only after finalize() (all component files closed) returned Ok",
+  functions=["indexer::index_writer::index_documents"], bounds="unroll 2")
+
+# =============================================================================================
+# more C02 / C11: prepare_commit joins every worker before drawing the commit opstamp
+# =============================================================================================
+EV_PREP = {"take_workers": {"call": r"std::mem::take::<std::vec::Vec<std::thread::JoinHandle<"},
+           "join": {"call": r"JoinHandle::<.*>::join$"},
+           "new_workers": {"call": r"IndexWriter::<D>::add_indexing_worker$"},
+           "stamp": {"call": r"Stamper::stamp$"},
+           "prepared": {"call": r"PreparedCommit::<'_, D>::new$"},
+           "ret": {"ret": True}}
+M("C02", "M02-3-commit-opstamp-after-joins", dict(
+    root=r"^indexer::index_writer::" + I + r"::prepare_commit$", depth=1, unroll=2, inline=[], auto_inline=False,
+    events=EV_PREP,
+    checks=[("precedes", "take_workers", "stamp"), ("precedes", "take_workers", "join"), ("precedes_ok", "stamp", "prepared"),
+            ("not_after_fail", "join", "stamp"), ("reach", "prepared"), ("reach", "join")]),
+  title="prepare_commit joins the indexing workers (every pending add is in a segment) before the commit opstamp is drawn; a failed worker aborts the commit before any opstamp is drawn",
+  functions=["IndexWriter::prepare_commit"], bounds="unroll 2")
+M("C11", "M11-3-worker-death-noticed", dict(
+    root=r"^indexer::index_writer::" + I + r"::prepare_commit$", depth=1, unroll=2, inline=[], auto_inline=False,
+    events=EV_PREP,
+    checks=[("err_propagates", "join"), ("err_propagates", "new_workers"), ("not_after_fail", "join", "prepared"),
+            ("not_after_fail", "new_workers", "prepared")]),
+  title="prepare_commit returns Err when a worker's join reports an error or a panic, and no PreparedCommit is produced",
+  functions=["IndexWriter::prepare_commit"], bounds="unroll 2")
+M("C18", "M18-3-wait_merging_threads-errors", dict(
+    root=r"^indexer::index_writer::" + I + r"::wait_merging_threads$", depth=1, unroll=2, inline=[], auto_inline=False,
+    events={"join": {"call": r"JoinHandle::<.*>::join$"}, "wait": {"call": r"SegmentUpdater::wait_merging_thread$"},
+            "acquire": {"call": r"Directory>::acquire_lock$"}, "ret": {"ret": True}},
+    absent_ok_events=["acquire"],
+    checks=[("err_propagates", "join"), ("err_propagates", "wait"), ("never", "acquire"), ("reach", "wait")]),
+  title="wait_merging_threads consumes the writer (the lock guard field is dropped with it on every exit), reports worker / merge errors and never touches the lock itself",
+  functions=["IndexWriter::wait_merging_threads"], bounds="unroll 2")
+
+# =============================================================================================
+# more C20: Index::validate_checksum visits the managed files of the committed segments
+# =============================================================================================
+M("C20", "M20-2-index-validate", dict(
+    root=r"^index::index::" + I + r"::validate_checksum$", depth=1, unroll=2, inline=[], auto_inline=False,
+    events={"managed": {"call": r"ManagedDirectory::list_managed_files$"},
+            "metas": {"call": r"Index::searchable_segment_metas$"},
+            "intersect": {"call": r"HashSet::<std::path::PathBuf>::intersection$"},
+            "validate": {"call": r"ManagedDirectory::validate_checksum$"},
+            "report": {"call": r"HashSet::<std::path::PathBuf>::insert$"},
+            "ret": {"ret": True}},
+    checks=[("precedes", "managed", "validate"), ("precedes_ok", "metas", "validate"), ("precedes", "intersect", "validate"),
+            ("precedes_ok", "validate", "report"), ("err_propagates", "metas"), ("err_propagates", "validate")]),
+  title="Index::validate_checksum checks the managed files of the committed segments and collects failing files only after a validation call; open / read errors are returned",
+  functions=["Index::validate_checksum"], bounds="unroll 2")
